@@ -279,7 +279,8 @@ def rule_k2(F):
             if kind is None:
                 continue
             r.inst("%s|%s|%s" % (label, kind, producer), {"fn": label, "line": t["line"], "kind": kind, "producer": producer})
-            ok = [k for k in K2_OK if (k[0] == "*" or p.endswith(k[0]) or p == k[0]) and k[1] == kind and k[2] == producer]
+            # a reviewed site covers the closures written inside the reviewed function (`(0..len).all(|i| ..get(i).unwrap()..)`)
+            ok = [k for k in K2_OK if (k[0] == "*" or p.endswith(k[0]) or p == k[0] or (k[0] + "::{closure") in p) and k[1] == kind and k[2] == producer]
             if ok:
                 continue
             r.bad("builtin " + label, "%s of %s" % (kind, producer), relfile(b.file), t["line"],
